@@ -754,7 +754,14 @@ int HSolver::AnalyzeProblem(CBigLinProb &L)
 			}
 			for (j=0;j<3;j++){
 				for (k=j;k<3;k++)
-                L.Put(L.Get(ne[j],ne[k])-Me[j][k],ne[j],ne[k]);
+				{
+					// two different nodes folded into the same floating conductor: both Me[j][k] and
+					// Me[k][j] belong to the diagonal entry of that conductor
+					if((j!=k) && (ne[j]==ne[k]))
+						L.Put(L.Get(ne[j],ne[k])-2.*Me[j][k],ne[j],ne[k]);
+					else
+						L.Put(L.Get(ne[j],ne[k])-Me[j][k],ne[j],ne[k]);
+				}
 				L.b[ne[j]]-=be[j];
 
 				if(ne[j]!=n[j])
@@ -802,10 +809,12 @@ int HSolver::AnalyzeProblem(CBigLinProb &L)
 
 			if(circproplist[i].CircType==0)
 			{
-				for(j=0,K=0;j<L.n;j++) if(j!=k) K+=L.Get(k,j);
+				// the element loop has accumulated the true diagonal and right-hand side of this row;
+				// compensate only the entries that tie the conductor's nodes to it
+				for(j=0,K=0;j<NumNodes;j++) if(meshnode[j].InConductor==i) K+=L.Get(k,j);
 				if(K!=0){
-					L.Put(-K,k,k);
-					L.b[k]=circproplist[i].q;
+					L.Put(L.Get(k,k)-K,k,k);
+					L.b[k]+=circproplist[i].q;
 				}
 				else L.Put(L.Get(0,0),k,k);
 
